@@ -2,6 +2,7 @@ package main
 
 import (
 	"bytes"
+	"math/big"
 	"context"
 	"fmt"
 	"os"
@@ -278,6 +279,10 @@ func interestingTerms(as []*Term) ([]*Term, []string) {
 			if strings.Contains(t.Name, "_0") && len(t.Args) == 1 && strings.HasSuffix(t.Name, "_0") {
 				ts = append(ts, t)
 				names = append(names, t.Name+"["+t.Args[0].String()+"]")
+				if t.Args[0].Op != OVar && t.Args[0].Op != OConst {
+					ts = append(ts, t.Args[0])
+					names = append(names, "ARG:"+t.Args[0].String())
+				}
 			}
 		}
 	}
@@ -336,6 +341,20 @@ func prepareObligation(c *VCtx, o *Obligation, mode Mode, opt solveOpts) {
 	o.QueryFile = file
 	o.valNames = names
 	o.bv = mode == ModeBV
+	// a second query that additionally asks for small slice capacities, so that a model can be
+	// rebuilt as a real Go value in the replay
+	small := append([]*Term{}, as...)
+	for i, t := range gv {
+		if t.Sort.Kind == SInt && (strings.Contains(names[i], "_cap_0[") || strings.Contains(names[i], ".cap!")) {
+			small = append(small, Le(t, Const(big.NewInt(4096), t.Sort)))
+		}
+	}
+	if len(small) > len(as) {
+		if text2, err := Query(mode, small, gv); err == nil {
+			o.SmallFile = strings.TrimSuffix(file, ".smt2") + "_small.smt2"
+			os.WriteFile(o.SmallFile, []byte(text2), 0o644)
+		}
+	}
 }
 
 // runObligation runs the solvers on a prepared obligation (safe to call concurrently).
@@ -358,6 +377,14 @@ func runObligation(o *Obligation, opt solveOpts) {
 	}
 	if o.Result == "sat" {
 		o.Model = parseValues(best.output, o.valNames)
+		if o.SmallFile != "" {
+			if r2, _ := raceSolvers(o.SmallFile, opt.secs, false); r2.answer == "sat" {
+				o.Model = parseValues(r2.output, o.valNames)
+			}
+		}
+	}
+	if o.SmallFile != "" && !opt.keep {
+		os.Remove(o.SmallFile)
 	}
 	if !opt.keep && o.Result == "unsat" {
 		os.Remove(o.QueryFile)
